@@ -93,7 +93,14 @@ impl Engine for MVRegEng {
     fn gen(s: &S, actor: u8, cmd: &Value) -> O {
         let v = cmd["v"].as_u64().unwrap() as u8;
         match cmd["c"].as_str().unwrap() {
-            "write" => s.write(v, s.read().derive_add_ctx(actor)),
+            // read() and read_ctx() carry the same context; alternate
+            "write" => {
+                if (v as usize + actor as usize) % 2 == 0 {
+                    s.write(v, s.read().derive_add_ctx(actor))
+                } else {
+                    s.write(v, s.read_ctx().derive_add_ctx(actor))
+                }
+            }
             "write_via_ctx" => s.write(v, s.read_ctx().derive_add_ctx(actor)),
             c => panic!("unknown mvreg command {}", c),
         }
